@@ -334,6 +334,17 @@ func ruleGateTable(c *Ctx, prop string) {
 					}
 				}
 			}
+			// (e) more entries than the maximum, the surplus absent (nil): the count is the length of the list, so this
+			// is refused like any other overlong list
+			if n == max0 && !dynamic {
+				for extra := int64(1); extra <= 2; extra++ {
+					in, _ := build(-1, pval{})
+					for k := int64(0); k < extra; k++ {
+						in = append(in, pval{k: pNil})
+					}
+					check(in, fmt.Sprintf("with %d inputs followed by %d absent (nil) entries (maximum %d)", max0, extra, max0), true, nil)
+				}
+			}
 		}
 		if bad != "" {
 			bads = append(bads, bad)
